@@ -390,3 +390,26 @@ pub fn sweep_varint(rep: &mut Report, threads: u32, shift: u32) {
         rep.violation("C15", &format!("sweep: {what}"), json!({"kind": "varint-sweep", "value": x}));
     }
 }
+
+/// C06 size rule: the effective buffer for every configured size up to 70000 and
+/// around every power of two up to `max`, against the mirror of Codec!AlignedBuf.
+pub fn sweep_bufsize(rep: &mut Report, max: usize) {
+    let rule = |n: usize| if n <= 24 { 24 } else { (n + 7) / 8 * 8 };
+    let mut ns: Vec<usize> = (0..=70000.min(max)).collect();
+    let mut p = 1usize;
+    while p <= max { for d in 0..=17 { if p + d <= max + 17 { ns.push(p + d); } if p > d { ns.push(p - d); } } p *= 2; }
+    for &k in &[8192usize, 65536, 1 << 20] { if k <= max { ns.push(k); } }
+    ns.sort_unstable(); ns.dedup();
+    let mut config = Config::with_conns(1.try_into().expect("nz"));
+    for n in ns {
+        config.buffer_size = n;
+        let mut p = fastcgi_server::parser::request::Parser::new(&config);
+        let got = p.input_buffer().len();
+        rep.count("abuf-sweep", &n, n > 0);
+        if got != rule(n) || got % 8 != 0 || got < n || got < 24 {
+            rep.violation("C06", &format!("effective buffer {got} for configured size {n}, rule gives {}", rule(n)), json!({"kind": "bufsize", "n": n}));
+            if rep.too_many_violations() { break; }
+        }
+    }
+    rep.sample("abuf-sweep", 1, || json!({"n": 8191, "effective": rule(8191)}));
+}
